@@ -230,11 +230,12 @@ impl Ctx {
       if self.known_ids.iter().any(|k| k == id) && pred(sig, &case) {
         let e = self.known_hits.entry(id.to_string()).or_insert((0, format!("{} :: {} :: {}", sig, case.pretty(), detail)));
         e.0 += 1;
+        *self.hist.entry(format!("KNOWN:{}:{}{}", id, sig, case.get("cls").map(|c| format!("|{}", c)).unwrap_or_default())).or_insert(0) += 1;
         return;
       }
     }
     self.n_violations += 1;
-    *self.hist.entry(format!("VIOLATION:{}", sig)).or_insert(0) += 1;
+    *self.hist.entry(format!("VIOLATION:{}{}", sig, case.get("cls").map(|c| format!("|{}", c)).unwrap_or_default())).or_insert(0) += 1;
     // keep the first few of each signature
     let cls = case.get("cls").unwrap_or("").to_string();
     let same = self.violations.iter().filter(|v| v.sig == sig && v.case.get("cls").unwrap_or("") == cls).count();
